@@ -89,7 +89,7 @@ PROPS = {
     "C07": dict(
         level_text="Fits(ctx, result) is a theorem of RoundOnce (MC_Round!FitsThm) and of AlgQuo (MC_AlgQuo, with the pinned 'no carry fix' variant as negative control); it is a conjunct on every recorded finite result of every rounding operation.",
         mc=[("MC_Round", None), ("MC_AlgQuo", None), ("MC_AlgQuo", "MC_AlgQuo_nocarry", "expect-violation")],
-        drivers=["arithS", "arithL", "intS", "intL", "vectors:add,sub,mul,quo,quoint,rem,abs,neg,round,quantize,reduce,sqrt,cbrt"],
+        drivers=["arithS", "arithL", "intS", "intL", "transcN", "vectors:add,sub,mul,quo,quoint,rem,abs,neg,round,quantize,reduce,sqrt,cbrt"],
         attr=attr_c07,
         rule="Fits(ctx, result) on every finite result of a rounding operation",
     ),
@@ -264,7 +264,7 @@ PROPS["C12"] = dict(
     level_text='ExpEnclS encloses exp with exact limb arithmetic and directed rounding (self-checked by MC_Transc: ordering, width, known digits, composition, verified ln 10, negative controls); a recorded Exp/Ln/Log10/Pow result is rejected only if provably more than one unit from the enclosure; Pow uses an untrusted hint the spec verifies first.',
     mc=[("MC_Transc", None)],
     mc_workers=1,
-    drivers=["transc"],
+    drivers=["transc", "transcN"],
     drivers_thorough=["vectors:exp,ln,log10,pow"],
     attr=lambda ev, names: fam(ev, "a") and ev["op"] in ("exp", "ln", "log10", "pow") and any_in(names, {"transc", "val", "panic", "sys", "wf"}),
     rule="Exp/Ln/Log10/Pow on seeded operands (1..3p digits, arguments near 1, tiny and huge Exp arguments up to the true "
